@@ -330,7 +330,7 @@ func runPlz(in inst, labels []string, nocache, rebuild bool, hookTarget string, 
 func pointName(l string) string {
 	f := strings.SplitN(l, " ", 2)
 	op := f[0]
-	if strings.HasPrefix(op, "out-") || op == "stamp-out" {
+	if strings.HasPrefix(op, "out-") || op == "stamp-out" || op == "unstamp-out" {
 		base := filepath.Base(strings.TrimSpace(f[1]))
 		if strings.HasPrefix(base, "o") {
 			return op + ":" + base[1:]
